@@ -80,10 +80,10 @@ var props = []*prop{
 	},
 	{
 		ID: "C11", Binary: "simcore", Quick: 10000, Thorough: 200000, RunWall: 180 * time.Second,
-		Variants: []variant{{Scenario: "c11", Weight: 1}},
+		Variants: []variant{{Scenario: "c11", Weight: 3}, {Scenario: "c11r", Weight: 1}},
 		Real:     fullStackReal,
 		Stub:     append([]string{netStub, "server -> scripted peer (reference codec) that answers every request it reads and closes connections by plan"}, commonStub...),
-		Rule:     "one case = one simulated run: 1-2 callers x 2-8 sequential calls through one real proxy with tape-drawn gaps (0ms-2.5s, straddling the sender's 1s poll); per accepted connection the scripted server keeps it, closes it after response k, closes it when idle for 50ms-2s, or sends the reconnect notification and closes after a drawn gap; crash+restart in some runs; distinct = distinct (event-log hash, switch trace hash); non-trivial = at least one preemption or fired fault",
+		Rule:     "one case = one simulated run: 1-2 callers x 2-8 sequential calls through one real proxy with tape-drawn gaps (0ms-2.5s, straddling the sender's 1s poll); per accepted connection the scripted server keeps it, closes it after response k, closes it when idle for 50ms-2s, or sends the reconnect notification and closes after a drawn gap; crash+restart (with a drawn down time) in some runs; every fourth run uses a real TarsServer as the peer instead (idle time-out 0.7-600s closing idle connections, graceful Shutdown with reconnect notification and restart 0-2 times); distinct = distinct (event-log hash, switch trace hash); non-trivial = at least one preemption or fired fault",
 	},
 	{
 		ID: "C12", Binary: "simcore", Quick: 5000, Thorough: 100000, RunWall: 180 * time.Second,
